@@ -324,12 +324,12 @@ pub fn run_all(seed: u64, scale: u32) -> Tally {
     }
     // transpose: 128 x c
     let cols: Vec<usize> = match scale {
-        0 => vec![16, 24, 128, 136, 264],
+        0 => vec![16, 24, 136, 264],
         1 => (16..=4096).step_by(8).filter(|c| *c <= 640 || c % 128 <= 8 || c % 512 == 504 || c % 104 == 0).collect(),
         _ => (16..=4096).step_by(8).collect(),
     };
     for (i, c) in cols.iter().enumerate() {
-        let aligns: Vec<usize> = if scale == 0 { vec![0, 3] } else if scale == 1 { vec![i % 16] } else { vec![0, i % 16, (i * 5 + 1) % 16] };
+        let aligns: Vec<usize> = if scale == 0 { vec![(i * 3) % 16] } else if scale == 1 { vec![i % 16] } else { vec![0, i % 16, (i * 5 + 1) % 16] };
         for a in aligns {
             check_transpose(&mut t, &mut rng, 128, *c, a);
         }
@@ -354,7 +354,7 @@ pub fn run_all(seed: u64, scale: u32) -> Tally {
         check_transpose(&mut t, &mut rng, 256, 24, 1);
     }
     // clmul
-    let step = if scale == 0 { 17 } else { 1 };
+    let step = if scale == 0 { 31 } else { 1 };
     for i in (0..128).step_by(step) {
         for j in (0..128).step_by(step) {
             check_clmul(&mut t, 1u128 << i, 1u128 << j, "basis pair");
@@ -363,7 +363,7 @@ pub fn run_all(seed: u64, scale: u32) -> Tally {
     check_clmul(&mut t, u128::MAX, u128::MAX, "all ones");
     check_clmul(&mut t, 0, rng.u128(), "zero");
     check_clmul(&mut t, 1, rng.u128(), "one");
-    let n_rand = [20, 4000, 200_000][scale as usize];
+    let n_rand = [12, 4000, 200_000][scale as usize];
     for i in 0..n_rand {
         let (a, b) = match i % 4 {
             0 => (rng.u128(), rng.u128()),
@@ -374,7 +374,7 @@ pub fn run_all(seed: u64, scale: u32) -> Tally {
         check_clmul(&mut t, a, b, ["random", "sparse", "dense", "half"][i % 4]);
     }
     // hashes
-    let n_h = [6, 2000, 50_000][scale as usize];
+    let n_h = [4, 2000, 50_000][scale as usize];
     for i in 0..n_h {
         let x = rng.block();
         let (tw, class) = match i % 4 {
@@ -389,7 +389,7 @@ pub fn run_all(seed: u64, scale: u32) -> Tally {
     check_hashes(&mut t, [0xff; 16], [0xff; 16], "all ones block");
     // generator: every request length in one call on a fresh generator
     let lens: Vec<usize> = match scale {
-        0 => vec![0, 1, 15, 16, 17, 127, 128, 129, 143, 144, 300],
+        0 => vec![0, 1, 17, 128, 129, 143],
         _ => (0..=1100).collect(),
     };
     for n in lens {
